@@ -96,39 +96,38 @@ def Chunked.readChunkSize (S : Src σ) (c : Chunked σ) : RR Nat × Chunked σ :
   | (.blocked, r') => (.blocked, { c with inner := r' })
   | (.panic, r') => (.panic, { c with inner := r' })
 
-/-- The refill part of `fill_buf` (entered when `buffer.len() == consumed` and not at the end). -/
+/-- Second half of the refill: `buffer.resize(min(remaining, MAX_BUFFER_LEN))`, `read_exact`,
+    `remaining -= buffer.len()`, and the line ending once the chunk is complete. -/
+def Chunked.refillData (S : Src σ) (c1 : Chunked σ) (maxBuf : Nat) : RR Unit × Chunked σ :=
+  match S.readExact c1.inner (min c1.remaining maxBuf) with
+  | (.ok bs, r') =>
+    -- `self.remaining -= self.buffer.len()` : usize subtraction
+    if c1.remaining < bs.length then (.panic, { c1 with inner := r' }) else
+    if c1.remaining - bs.length = 0 then
+      (match readLineEnding S r' with
+       | (.ok true, r'') =>
+         (.ok (), { c1 with inner := r'', buffer := bs, consumed := 0, remaining := 0 })
+       | (.ok false, r'') =>
+         (.err .chunk, { c1 with inner := r'', buffer := [], consumed := 0, remaining := 0, reachedEof := true })
+       | (.err e, r'') => (.err e, { c1 with inner := r'', buffer := bs, consumed := 0, remaining := 0 })
+       | (.blocked, r'') => (.blocked, { c1 with inner := r'', buffer := bs, consumed := 0, remaining := 0 })
+       | (.panic, r'') => (.panic, { c1 with inner := r'', buffer := bs, consumed := 0, remaining := 0 }))
+    else (.ok (), { c1 with inner := r', buffer := bs, consumed := 0, remaining := c1.remaining - bs.length })
+  | (.err e, r') => (.err e, { c1 with inner := r' })
+  | (.blocked, r') => (.blocked, { c1 with inner := r' })
+  | (.panic, r') => (.panic, { c1 with inner := r' })
+
+/-- The refill part of `fill_buf` (entered when `buffer.len() == consumed` and not at the end):
+    a chunk-size line first if the previous chunk is complete. -/
 def Chunked.refill (S : Src σ) (c : Chunked σ) (maxBuf : Nat) : RR Unit × Chunked σ :=
-  -- 1. chunk-size line if the previous chunk is complete
-  let step1 : RR Unit × Chunked σ :=
-    if c.remaining = 0 then
-      match c.readChunkSize S with
-      | (.ok n, c') => (.ok (), { c' with remaining := n, reachedEof := c'.reachedEof || n == 0 })
-      | (.err e, c') => (.err e, c')
-      | (.blocked, c') => (.blocked, c')
-      | (.panic, c') => (.panic, c')
-    else (.ok (), c)
-  match step1 with
-  | (.ok (), c1) =>
-    let want := min c1.remaining maxBuf
-    (match S.readExact c1.inner want with
-     | (.ok bs, r') =>
-       -- `self.remaining -= self.buffer.len()` : usize subtraction
-       if c1.remaining < bs.length then (.panic, { c1 with inner := r' }) else
-       let c2 := { c1 with inner := r', buffer := bs, consumed := 0, remaining := c1.remaining - bs.length }
-       if c2.remaining = 0 then
-         (match readLineEnding S c2.inner with
-          | (.ok true, r'') => (.ok (), { c2 with inner := r'' })
-          | (.ok false, r'') => (.err .chunk, { c2 with inner := r'', buffer := [], reachedEof := true })
-          | (.err e, r'') => (.err e, { c2 with inner := r'' })
-          | (.blocked, r'') => (.blocked, { c2 with inner := r'' })
-          | (.panic, r'') => (.panic, { c2 with inner := r'' }))
-       else (.ok (), c2)
-     | (.err e, r') => (.err e, { c1 with inner := r' })
-     | (.blocked, r') => (.blocked, { c1 with inner := r' })
-     | (.panic, r') => (.panic, { c1 with inner := r' }))
-  | (.err e, c1) => (.err e, c1)
-  | (.blocked, c1) => (.blocked, c1)
-  | (.panic, c1) => (.panic, c1)
+  if c.remaining = 0 then
+    match c.readChunkSize S with
+    | (.ok n, c') =>
+      Chunked.refillData S { c' with remaining := n, reachedEof := c'.reachedEof || n == 0 } maxBuf
+    | (.err e, c') => (.err e, c')
+    | (.blocked, c') => (.blocked, c')
+    | (.panic, c') => (.panic, c')
+  else Chunked.refillData S c maxBuf
 
 /-- `BufRead::fill_buf` for `ChunkedReader`; a failed refill is latched. Returns the readable slice. -/
 def Chunked.fillBuf (S : Src σ) (c : Chunked σ) (maxBuf : Nat) : RR Bytes × Chunked σ :=
